@@ -2,7 +2,7 @@
 \* Texts {q1,q2,bad}, WrongHashes {x:rand}, map + LRU capacity 1..2, one
 \* malformed kind with and one without hash, one bad version; histories of any
 \* length sending at most 3 distinct <<hash,text>> pairs.
-\* Measured: 52534 distinct states, 3362179 generated, 15 s with 4 workers.
+\* Measured: 57046 distinct states, 3650947 generated, 15-20 s with 4 workers.
 SPECIFICATION Spec
 CONSTANTS
   Texts <- QTexts
